@@ -1239,7 +1239,7 @@ package stackage
 //@ requires okslice(in, alloc)
 //@ ensures[C16:deenvelope] okslice(result, alloc) && (len(in) != 1 ==> result == in)
 //@ modifies nothing
-//@ loop 1 invariant okslice(in, alloc)
+//@ loop 1 invariant okslice(in, alloc) && (len(in0) != 1 ==> in == in0)
 
 //@ func marshalDefault
 //@ tags C16,C09,C11
